@@ -575,7 +575,7 @@ def gen_deterministic(rng, lzo, jpeg, jpegrgb):
         fmt = E.FMT_BY_NAME["rgb565le"]
         W, H = 9, 5
         chal = bytes((i * 37 + 11) & 0xFF for i in range(16))
-        sec = (bytes([2, 1, 2]) if ver >= b"RFB 003.007\n" else struct.pack(">I", 2)) + chal + struct.pack(">I", 0)
+        sec = (bytes([1, 2]) if ver >= b"RFB 003.007\n" else struct.pack(">I", 2)) + chal + struct.pack(">I", 0)
         hsb = ver + sec + struct.pack(">HH", W, H) + sf.wire() + struct.pack(">I", 3) + b"det"
         sess = E.Session(rng, fmt, W, H, lzo=lzo)
         sess.z = []
